@@ -82,6 +82,11 @@ def run(tier, seed):
     for N in orders:
         moments_unit(pr, N, tier)
     obs = pr.obs
+    import envelope
+    acc6 = ["mean"] + [["central_moment", p] for p in range(2, 7)] + [["standardized_moment", p] for p in range(3, 7)]
+    obs += envelope.guard_moments("C04", "M6", acc6, "define_moments!(_, 6) (add-only histories)")
+    obs += envelope.guard_moments("C04", "Moments4", ["mean"] + [["central_moment", p] for p in range(2, 5)] + [["standardized_moment", p] for p in (3, 4)],
+                                  "define_moments!(_, 4) = average::Moments4 (add-only histories)")
     obs += vl.run_lemmas("C04", ["lemma_fold", "swap", "realizable", "bridge"])
     meta = {
         "level": "proof",
@@ -93,8 +98,9 @@ def run(tier, seed):
         "assumptions": [A_REAL, A_INT, A_LIB, A_REALIZABLE, "A-LIB: num_traits::pow(x, k) = repeated product",
                         "configurations: orders N in %s, every p <= N (loops unrolled: bounds are the macro parameter; complete per N); other N are not covered by this run" % orders,
                         "agreement with Mean/Variance/Skewness/Kurtosis: both sides are proved equal to the same textbook terms of the shared summary (C01/C03)",
+                        "the forward-error envelope is exercised only by a BOUNDED known-answer corpus (envelope_guard)",
                         "central_moment(p) for p > N panics on the array index (outside the property)"],
         "explanation": "Pebay-style single-observation update proved against M_p of the enlarged summary for p = 2..N; accessors against M_p/n and (M_p/n)/sigma^p; the documented assert_ne!(variance, 0) is the only allowed panic.",
     }
     from confirm_rs import confirm_moment
-    return obs, meta, lambda ob: confirm_moment(ob, TYPE_MAP)
+    return obs, meta, lambda ob: envelope.confirm_from_cex(ob) or confirm_moment(ob, TYPE_MAP)
